@@ -1,32 +1,156 @@
 //! Contract-level model of hashbrown::HashMap for bounded symbolic execution:
-//! a fixed inline association list (no heap, no hashing). Capacity bound MAPCAP.
+//! a fixed inline association list (no heap, no hashing), capacity bound MAPCAP.
+//!
+//! Occupancy and keys live in plain arrays (`used`, `keys`) and the values in
+//! `MaybeUninit` cells, so that a lookup with concrete keys is decided by constant
+//! propagation (an `Option<(K, V)>` slot would hide the occupancy in a niche of `V`, which the
+//! symbolic execution reads through a union and does not fold).
 #![no_std]
 use core::hash::{BuildHasher, Hash};
 use core::marker::PhantomData;
+use core::mem::MaybeUninit;
 pub const MAPCAP: usize = 3;
 #[derive(Default, Clone, Copy, Debug)]
 pub struct DefaultHashBuilder;
-pub struct HashMap<K, V, S = DefaultHashBuilder> { slots: [Option<(K, V)>; MAPCAP], len: usize, _s: PhantomData<S> }
-impl<K: core::fmt::Debug, V: core::fmt::Debug, S> core::fmt::Debug for HashMap<K, V, S> { fn fmt(&self, f: &mut core::fmt::Formatter<'_>) -> core::fmt::Result { f.write_str("HashMap") } }
+pub struct HashMap<K, V, S = DefaultHashBuilder> {
+    used: [bool; MAPCAP],
+    keys: [MaybeUninit<K>; MAPCAP],
+    vals: [MaybeUninit<V>; MAPCAP],
+    len: usize,
+    _s: PhantomData<S>,
+}
+impl<K, V, S> core::fmt::Debug for HashMap<K, V, S> {
+    fn fmt(&self, f: &mut core::fmt::Formatter<'_>) -> core::fmt::Result {
+        f.write_str("HashMap")
+    }
+}
+impl<K, V, S> Drop for HashMap<K, V, S> {
+    fn drop(&mut self) {
+        let mut i = 0;
+        while i < MAPCAP {
+            if self.used[i] {
+                self.used[i] = false;
+                unsafe {
+                    self.keys[i].assume_init_drop();
+                    self.vals[i].assume_init_drop();
+                }
+            }
+            i += 1;
+        }
+    }
+}
 impl<K: Eq + Hash, V, S> HashMap<K, V, S> {
-    pub fn with_hasher(_s: S) -> Self { Self { slots: [const { None }; MAPCAP], len: 0, _s: PhantomData } }
-    pub fn len(&self) -> usize { self.len }
-    pub fn is_empty(&self) -> bool { self.len == 0 }
+    pub fn with_hasher(_s: S) -> Self {
+        Self { used: [false; MAPCAP], keys: [const { MaybeUninit::uninit() }; MAPCAP], vals: [const { MaybeUninit::uninit() }; MAPCAP], len: 0, _s: PhantomData }
+    }
+    pub fn len(&self) -> usize {
+        self.len
+    }
+    pub fn is_empty(&self) -> bool {
+        self.len == 0
+    }
     fn idx(&self, k: &K) -> Option<usize> {
         let mut i = 0;
-        while i < MAPCAP { if let Some((kk, _)) = &self.slots[i] { if kk == k { return Some(i); } } i += 1; }
+        while i < MAPCAP {
+            if self.used[i] && unsafe { self.keys[i].assume_init_ref() } == k {
+                return Some(i);
+            }
+            i += 1;
+        }
         None
     }
-    pub fn contains_key(&self, k: &K) -> bool { self.idx(k).is_some() }
-    pub fn get(&self, k: &K) -> Option<&V> { match self.idx(k) { Some(i) => self.slots[i].as_ref().map(|(_, v)| v), None => None } }
-    pub fn get_mut(&mut self, k: &K) -> Option<&mut V> { match self.idx(k) { Some(i) => self.slots[i].as_mut().map(|(_, v)| v), None => None } }
-    pub fn insert(&mut self, k: K, v: V) -> Option<V> {
-        if let Some(i) = self.idx(&k) { let old = core::mem::replace(&mut self.slots[i], Some((k, v))); return old.map(|(_, v)| v); }
-        let mut i = 0;
-        while i < MAPCAP { if self.slots[i].is_none() { core::mem::forget(core::mem::replace(&mut self.slots[i], Some((k, v)))); self.len += 1; return None; } i += 1; }
-        panic!("harness map bound exceeded");
+    pub fn contains_key(&self, k: &K) -> bool {
+        self.idx(k).is_some()
     }
-    pub fn remove(&mut self, k: &K) -> Option<V> { match self.idx(k) { Some(i) => { self.len -= 1; self.slots[i].take().map(|(_, v)| v) } None => None } }
-    pub fn values(&self) -> impl Iterator<Item = &V> { self.slots.iter().filter_map(|s| s.as_ref().map(|(_, v)| v)) }
-    pub fn drain(&mut self) -> impl Iterator<Item = (K, V)> + '_ { self.len = 0; self.slots.iter_mut().filter_map(|s| s.take()) }
+    pub fn get(&self, k: &K) -> Option<&V> {
+        match self.idx(k) {
+            Some(i) => Some(unsafe { self.vals[i].assume_init_ref() }),
+            None => None,
+        }
+    }
+    pub fn get_mut(&mut self, k: &K) -> Option<&mut V> {
+        match self.idx(k) {
+            Some(i) => Some(unsafe { self.vals[i].assume_init_mut() }),
+            None => None,
+        }
+    }
+    pub fn insert(&mut self, k: K, v: V) -> Option<V> {
+        if let Some(i) = self.idx(&k) {
+            let old = core::mem::replace(&mut self.vals[i], MaybeUninit::new(v));
+            return Some(unsafe { old.assume_init() });
+        }
+        let mut i = 0;
+        while i < MAPCAP {
+            if !self.used[i] {
+                self.used[i] = true;
+                self.keys[i] = MaybeUninit::new(k);
+                self.vals[i] = MaybeUninit::new(v);
+                self.len += 1;
+                return None;
+            }
+            i += 1;
+        }
+        panic!("BOUND: harness map bound (MAPCAP) exceeded in the hashbrown model");
+    }
+    pub fn remove(&mut self, k: &K) -> Option<V> {
+        match self.idx(k) {
+            Some(i) => {
+                self.len -= 1;
+                self.used[i] = false;
+                unsafe {
+                    self.keys[i].assume_init_drop();
+                    Some(self.vals[i].assume_init_read())
+                }
+            }
+            None => None,
+        }
+    }
+    pub fn values(&self) -> Values<'_, K, V, S> {
+        Values { m: self, i: 0 }
+    }
+    pub fn drain(&mut self) -> Drain<'_, K, V, S> {
+        Drain { m: self, i: 0 }
+    }
+    pub fn clear(&mut self) {
+        let mut d = self.drain();
+        while let Some(kv) = d.next() {
+            drop(kv);
+        }
+    }
+}
+pub struct Values<'a, K, V, S> {
+    m: &'a HashMap<K, V, S>,
+    i: usize,
+}
+impl<'a, K, V, S> Iterator for Values<'a, K, V, S> {
+    type Item = &'a V;
+    fn next(&mut self) -> Option<&'a V> {
+        while self.i < MAPCAP {
+            let i = self.i;
+            self.i += 1;
+            if self.m.used[i] {
+                return Some(unsafe { self.m.vals[i].assume_init_ref() });
+            }
+        }
+        None
+    }
+}
+pub struct Drain<'a, K, V, S> {
+    m: &'a mut HashMap<K, V, S>,
+    i: usize,
+}
+impl<K, V, S> Iterator for Drain<'_, K, V, S> {
+    type Item = (K, V);
+    fn next(&mut self) -> Option<(K, V)> {
+        while self.i < MAPCAP {
+            let i = self.i;
+            self.i += 1;
+            if self.m.used[i] {
+                self.m.used[i] = false;
+                self.m.len -= 1;
+                return Some(unsafe { (self.m.keys[i].assume_init_read(), self.m.vals[i].assume_init_read()) });
+            }
+        }
+        None
+    }
 }
